@@ -129,6 +129,12 @@ def rule_keytable(ctx):
     f = ctx.program.func("key.weighted_score", R)
     s = ctx.S.get(f.qual)
     rows = []
+    if not all(is_lit(r.term) for r in s.returns):
+        sem = _keytable_semantic(ctx, f, s, R)
+        need(sem is not None, R, "weighted_score returns a computed value and its decision table cannot be evaluated")
+        yield from sem
+        yield from _keytable_names(ctx, R)
+        return
     for r in s.returns:
         need(is_lit(r.term), R, "weighted_score returns a non-literal")
         conds = symeval.pc_conds(r.pc)
@@ -219,13 +225,18 @@ def _key_oracle(rk, ek, rm, em):
     return 0.0
 
 
-def _keytable_semantic(ctx, f, s, R):
-    """Decide the whole decision list at once: key numbers and modes are touched only through ==, `is None` and
-    (est - ref) % 12, so the function is determined by its values on {None, 0..11}^2 x {major, minor, other}^2 -
-    1369 inputs on which the returned literal must equal the documented MIREX table.  Returns the obligations, or
-    None when the terms are outside what the interpreter reads (the syntactic reading below then applies)."""
+def key_decision_table(ctx):
+    """key.weighted_score evaluated on its whole input domain: {(ref key, ref mode, est key, est mode): score}, or None
+    when its terms are outside what the interpreter reads.  Key numbers and modes are touched only through ==,
+    `is None`, (est - ref) % 12 and table look-ups, so the 37 x 37 pairs of {X} + {0..11} x {major, minor, other}
+    determine the function."""
+    if "key_table" in ctx.cache:
+        return ctx.cache["key_table"]
     from .. import finmodel
 
+    ctx.cache["key_table"] = None
+    f = ctx.program.func("key.weighted_score")
+    s = ctx.S.get(f.qual)
     parts = {}
     for r in s.returns:
         for x in list(tm.walk(r.term)) + [y for c, _ in symeval.pc_conds(r.pc) for y in tm.walk(c)]:
@@ -237,20 +248,32 @@ def _keytable_semantic(ctx, f, s, R):
     I = finmodel.Interp(ctx)
     # split_key_string gives (None, None) for "X" and (0..11, mode) otherwise
     sides = [(None, None)] + [(k, m) for k in range(12) for m in ("major", "minor", "other")]
-    bad = []
-    n = 0
+    out = {}
     for rk, rm in sides:
         for ek, em in sides:
-            if True:
-                if True:
-                    env = {parts[("R", 0)].id: rk, parts[("E", 0)].id: ek, parts[("R", 1)].id: rm, parts[("E", 1)].id: em}
-                    got = finmodel.decide(rows, env, I)
-                    if got is None:
-                        return None
-                    n += 1
-                    want = _key_oracle(rk, ek, rm, em)
-                    if float(got[0]) != want:
-                        bad.append(((rk, rm), (ek, em), got[0], want))
+            env = {parts[("R", 0)].id: rk, parts[("E", 0)].id: ek, parts[("R", 1)].id: rm, parts[("E", 1)].id: em}
+            got = finmodel.decide(rows, env, I)
+            if got is None or got[0] == I.RAISES:
+                return None
+            try:
+                out[(rk, rm, ek, em)] = float(got[0])
+            except Exception:
+                return None
+    ctx.cache["key_table"] = out
+    return out
+
+
+def _keytable_semantic(ctx, f, s, R):
+    """Decide the whole decision list at once by comparing the evaluated table with the documented MIREX table."""
+    tab = key_decision_table(ctx)
+    if tab is None:
+        return None
+    bad = []
+    for (rk, rm, ek, em), got in tab.items():
+        want = _key_oracle(rk, ek, rm, em)
+        if got != want:
+            bad.append(((rk, rm), (ek, em), got, want))
+    n = len(tab)
     out = []
     for name, pred, what in (
         ("fifth", lambda b: b[3] == 0.5 or b[2] == 0.5, "a perfect fifth above ((est - ref) mod 12 == 7) in the same mode scores 0.5"),
@@ -263,9 +286,9 @@ def _keytable_semantic(ctx, f, s, R):
         bad = [b for b in bad if b not in mine]
         w = mine[0] if mine else None
         out.append(ob(R, f, "key.weighted_score:%s" % name, not mine, what if not mine else "%s - but weighted_score(ref=%s, est=%s) evaluates to %s, documented %s (%d disagreeing inputs)" % (what, w[0], w[1], w[2], w[3], len(mine))))
-    out.append(ob(R, f, "key.weighted_score:decision-table", True, "the returned literal was evaluated on all %d pairs of {X} + {0..11} x {major, minor, other} and compared with the documented table" % n))
+    out.append(ob(R, f, "key.weighted_score:decision-table", True, "the returned score was evaluated on all %d pairs of {X} + {0..11} x {major, minor, other} and compared with the documented table" % n))
     grid = [float(x) for x in re.findall(r"\|\s*([0-9]\.[0-9]+)\s*\|", f.doc)]
-    scores = sorted({float(lit(r.term)) for r in s.returns if is_lit(r.term)}, reverse=True)
+    scores = sorted(set(tab.values()), reverse=True)
     out.append(ob(R, f, "key.weighted_score:scores-vs-docstring", sorted(set(grid), reverse=True) == scores and len(grid) == 5, "returned scores %s equal the five scores of the docstring table %s" % (scores, grid)))
     return out
 
